@@ -381,6 +381,15 @@ Definition api_session (cmd : bytes) (args : list cbor) : option cbor :=
       Some (CBool (bytes_eqb (snd (next_iv (role_of_code r) ctr)) (iv (role_of_code r) crafted)))
     | _ => None
     end
+  (* observed [accepted by the session whose key made the message, accepted by a session with ANOTHER key] *)
+  else if bytes_eqb cmd (s "c06.spec_other_key") then
+    match args with
+    | [CArray [CBool own; CBool other]] =>
+      Some (if other then ctext "fail:a message encrypted under other keys was accepted"
+            else if negb own then ctext "fail:the peer's next message under the session key was refused"
+            else ctext "ok")
+    | _ => None
+    end
   else if bytes_eqb cmd (s "c06.spec_far") then
     match args with
     | [CUInt r; CUInt ctr; CUInt crafted; CBool accepted] =>
